@@ -56,6 +56,17 @@ def assemble_rtf(
                 found = True
 
         if found:
+            closing = last_idx + 1  # the line holding the font table's closing brace
+            if (
+                closing < len(lines)
+                and lines[closing].startswith("}")
+                and lines[closing].strip() != "}"
+            ):
+                # Figure-only documents write the closing brace and the start of
+                # the colour table on one line ("}{\\colortbl;"): drop the brace
+                # only and keep the rest of the line.
+                lines[closing] = lines[closing][1:]
+                return closing
             return last_idx + 2
         return 0
 
